@@ -2,6 +2,7 @@
 from harness.impl_variants import impl_var_op
 
 WARM_TWINS = {"quick": 0.02, "thorough": 0.05}      # engine: call-history twins (harness/warm.py)
+DECOY_TWINS = {"quick": 0.02, "thorough": 0.05}     # engine: decoy twins (harness/decoy.py)
 ID = "C13"
 LEAN_MODULE = "BioCantor.Props.C13"
 EXTRA_LEAN_MODULES = ["BioCantor.Props.C13Ties"]   # regenerated compound lift loop + tail = Model.liftBlocks + assemble
